@@ -30,7 +30,10 @@ use crate::memory::PooledPageBuffer;
 use parking_lot::{Condvar, Mutex};
 use smallvec::SmallVec;
 use std::collections::VecDeque;
+#[cfg(not(kahflane_turdb_verif_sched))]
 use std::sync::atomic::{AtomicBool, AtomicU64, Ordering};
+#[cfg(kahflane_turdb_verif_sched)]
+use shuttle::sync::atomic::{AtomicBool, AtomicU64, Ordering};
 use std::time::{Duration, Instant};
 
 /// Payload type for dirty pages: (table_id, page_id, pooled_buffer, db_size)
